@@ -598,7 +598,9 @@ def hoist_cases(repo):
         ("a(R)", lambda sh, a, b, c, r: sh.bin("call", a, r), A, 0o60, "a"),
     ]
     out = []
-    for text, build, want, mode, last in cases:
+    # every case with the register written 'r2' and written '%2' (the same register: C10)
+    cases = [(t.replace("(R)", f"({spell})"), b, w, m, l, spell) for (t, b, w, m, l) in cases for spell in ("r2", "%2")]
+    for text, build, want, mode, last, spell in cases:
         seen = []
 
         def gai(I_, fn, args, kw):
@@ -606,6 +608,8 @@ def hoist_cases(repo):
             b = dict(zip(names, args))
             b.update(kw)
             val = I_.call_method(b["arg_token"], "resolve", [b["state"]])
+            if isinstance(val, int) and not is_sym(val) and b.get("what") != "index":
+                return val      # the register number of '%2'
             seen.append((b["token"], b["arg_token"], b.get("bitness"), b.get("unsigned")))
             return sym.op("get_as_int", val, b.get("bitness"), b.get("unsigned"), b.get("default"))
         I = eager_interp(repo, extra={"metacommand_impl::get_as_int": gai})
@@ -615,7 +619,7 @@ def hoist_cases(repo):
             del seen[:]
             sh = Shapes(I)
             a, b, c = sh.xexpr(A, "a"), sh.xexpr(B, "b"), sh.xexpr(C, "c")
-            r = sh.symbol("r2")
+            r = sh.symbol("r2") if spell == "r2" else sh.un("register", sh.number("2", 2))
             operand = build(sh, a, b, c, r)
             toks.update(a=a, b=b, c=c, operand=operand)
             stub = I.instantiate(I.module_get("insns", "RegisterModeOperandStub"), ["d", [5, 4, 3, 2, 1, 0]], {})
@@ -639,12 +643,12 @@ def rule_T5(ck):
         if m != (mode | 2):
             ck.violation(where, f"index operand '{text}' gets mode {m!r}, expected {mode | 2:o}", construct=f"hoist {text} mode")
         if ext != exp_ext:
-            ck.violation(where, f"index operand '{text}': the index word is {ext!r}, expected {exp_ext!r} (the register binds to the whole expression: '{text.replace('(R)', '')}' is the index)",
+            ck.violation(where, f"index operand '{text}': the index word is {ext!r}, expected {exp_ext!r} (the register binds to the whole expression: '{text.split('(')[0].lstrip('@')}' is the index)",
                          construct=f"hoist {text} value", expected=repr(exp_ext), found=repr(ext))
 
 
 def run(ck):
-    ck.run_rule("C01.T5", "index operands written 'a+b(r)': the register is hoisted out and the whole expression is the index", 8, rule_T5)
+    ck.run_rule("C01.T5", "index operands written 'a+b(r)': the register is hoisted out and the whole expression is the index", 16, rule_T5)
     ck.run_rule("C01.T1", "opcode table == ISA reference (fold of insns.init over instruction_opcodes)", 252, rule_T1)
     ck.run_rule("C01.S", "synonyms encode like their targets", 30, rule_S)
     ck.run_rule("C01.T2", "addressing-mode decision list on canonical operand shapes", 40, rule_T2)
